@@ -171,6 +171,8 @@ inductive FdAct where
   | dup2 (src dst : Nat)
   | close (fd : Nat)
   | clearCloexec (fd : Nat)
+  /-- `let f = fcntl(src, F_GETFD); if f >= 0 && f & FD_CLOEXEC == 0 { dup2(src, dst); }` -/
+  | dup2IfInheritable (src dst : Nat)
 deriving Repr, DecidableEq
 
 structure Recipe where
@@ -190,8 +192,10 @@ def execRecipe (cmd sockPath : Str) (fd : Nat) : Recipe :=
     envAdd := [(kVarlinkAddress, pUnix ++ sockPath),
                (kListenFds, ['1']),
                (kListenFdnames, sVarlink)],
-    preExec := .dup2 2 1 ::
-      (if fd ≠ 3 then [.dup2 fd 3, .close fd] else [.clearCloexec 3]) }
+    -- 2afad3a: the listener is moved first (it may be descriptor 1); the service's stdout goes to
+    -- the caller's stderr only if descriptor 2 is not close-on-exec (a close-on-exec descriptor 2 is
+    -- a reused number, e.g. the status pipe of `spawn` itself)
+    preExec := (if fd ≠ 3 then [.dup2 fd 3, .close fd] else [.clearCloexec 3]) ++ [.dup2IfInheritable 2 1] }
 
 /-- `varlink_bridge(cmd)`: `sh -c cmd` with one end of a socket pair as stdin and
     (a duplicate of it as) stdout; no environment, no `pre_exec` -/
@@ -229,6 +233,10 @@ def applyFdAct (t : FdTable) : FdAct → FdTable
     match fdGet fd t with
     | none => t
     | some e => fdSet fd { e with cloexec := false } t
+  | .dup2IfInheritable s d =>
+    match fdGet s t with
+    | none => t
+    | some e => if e.cloexec || s = d then t else fdSet d { e with cloexec := false } t
 
 /-- `execve`: descriptors with the close-on-exec flag are closed -/
 def execFds (t : FdTable) : FdTable := t.filter (fun e => !e.2.cloexec)
